@@ -74,6 +74,11 @@ REVERTS = [
     ("only-if-cached is honoured for requests the cache never answers", ["C18"]), ("index references keep the exact bytes", ["C19"]), ("fscache.Set writes from its own copy", ["C15"]), ("a 304 that answers the client's own conditional request is handed", ["C02"]),
     ("the request header fields nominated by Vary are looked up", ["C04"]), ("all Vary field lines form the list", ["C04"]),
     ("the request's Cache-Control is read whatever", ["C02"]),
+    ("all Connection field lines of a response", ["C05"]), ("with update_mtime=on, a Get whose file is deleted", ["C15"]),
+    ("X-From-Cache sent by the origin", ["C11"]), ("path segments that read", ["C09"]),
+    ("of a Cache-Control directive given more than once", ["C01"]),
+    ("the background revalidation of a stale-while-revalidate serve reads the variant index again", ["C08"]),
+    ("a header field that sits in the header map under several keys", ["C03", "C18"]),
 ]
 
 
